@@ -841,6 +841,60 @@ func plEnumStartupConfs(seed int64) []plConf {
 	return out
 }
 
+// PoolSched binding: a shared two-part composite of once / unlimited parts (exact token counts, the composite's
+// shift and retry paths), 1..4 instances started at once
+func plSchedConf(rng *rand.Rand) plConf {
+	c := plConf{Case: -1}
+	c.Startup = plSched{Ctor: "once", Times: int64(1 + rng.Intn(4))}
+	unl := plSched{Ctor: "unlimited", Dur: plMs(2 + rng.Intn(5))}
+	once := func(max int) plSched { return plSched{Ctor: "once", Times: int64(rng.Intn(max + 1))} }
+	switch rng.Intn(5) {
+	case 0, 1:
+		c.RPS = plSched{Ctor: "composite", Kids: []plSched{once(5), once(5)}}
+	case 2, 3:
+		c.RPS = plSched{Ctor: "composite", Kids: []plSched{once(5), unl}}
+	default:
+		c.RPS = plSched{Ctor: "composite", Kids: []plSched{unl, once(4)}}
+	}
+	c.Discard = rng.Intn(2) == 0
+	c.ShotMax = time.Duration(rng.Intn(3)) * time.Millisecond
+	if c.RPS.hasUnlimited() {
+		c.ShotMin = 300 * time.Microsecond
+	} else if c.Discard && rng.Intn(2) == 0 {
+		c.Past = 2*time.Second - plMs(2) + plMs(rng.Intn(4))
+	}
+	if rng.Intn(3) == 0 {
+		c.ProvDelay = time.Duration(rng.Intn(500)) * time.Microsecond
+	}
+	t := c.RPS.minTokens()
+	switch rng.Intn(3) {
+	case 0:
+		c.A = -1
+	default:
+		c.A = rng.Intn(t + 4)
+	}
+	return c
+}
+
+// the RPS schedule as PoolSched's two-part tree, when it is one
+func (c plConf) schedTree() []map[string]interface{} {
+	out := []map[string]interface{}{}
+	if c.RPS.Ctor != "composite" || len(c.RPS.Kids) != 2 || c.Per {
+		return out
+	}
+	for _, k := range c.RPS.Kids {
+		switch k.Ctor {
+		case "once":
+			out = append(out, map[string]interface{}{"kind": "doat", "n": int(k.Times)})
+		case "unlimited":
+			out = append(out, map[string]interface{}{"kind": "unl", "n": 0})
+		default:
+			return []map[string]interface{}{}
+		}
+	}
+	return out
+}
+
 func plRandConf(rng *rand.Rand, focus string) plConf {
 	n := 1 + rng.Intn(8)
 	c := plConf{Case: -1}
@@ -999,6 +1053,10 @@ func poolMain(args []string) {
 		}
 	} else if *focus == "c12enum" {
 		confs = plEnumStartupConfs(seed)
+	} else if *focus == "c03sched" {
+		for i := 0; i < *runs; i++ {
+			confs = append(confs, plSchedConf(rand.New(rand.NewSource(seed*1000033+int64(i)))))
+		}
 	} else {
 		for i := 0; i < *runs; i++ {
 			rng := rand.New(rand.NewSource(seed*1000003 + int64(i)))
@@ -1025,7 +1083,7 @@ func poolMain(args []string) {
 		w.Emit(map[string]interface{}{"run": i, "seq": 0, "ev": "conf",
 			// n_impl, t, tmin: what the REAL schedules report before their start (Left()); sdesc, rdesc: the configuration
 			"n_impl": c.Startup.tokens(), "t": c.RPS.tokens(), "tmin": c.RPS.minTokens(), "a": c.A, "per": c.Per, "discard": c.Discard,
-			"sdesc": c.Startup.desc(), "rdesc": c.RPS.desc(), "explicit": c.Explicit, "case": c.Case,
+			"sdesc": c.Startup.desc(), "rdesc": c.RPS.desc(), "explicit": c.Explicit, "case": c.Case, "tree": c.schedTree(),
 			"desc": fmt.Sprintf("startup=%s rps=%s per=%v discard=%v a=%d past=%s shot<=%s provdelay=%s explicit=%v viaconf=%v yamlshape=%v",
 				c.Startup, c.RPS, c.Per, c.Discard, c.A, c.Past, c.ShotMax, c.ProvDelay, c.Explicit, c.ViaConf, c.ViaConf && c.YamlShape)})
 		for _, e := range res.evs {
